@@ -33,6 +33,7 @@ THEOREMS = [
     "Pt.pad_sound",
     "Pt.lower_einsum_correct", "Pt.lower_advindex_correct",
     "Pt.binop_sound", "Pt.where_sound", "Pt.api_emits_own_name", "Pt.reduce_sound", "Pt.reduce_no_axes",
+    "Pt.full_sound", "Pt.eye_sound", "Pt.arange_len", "Pt.arange_sound", "Pt.csr_matmul_sound",
 ]
 
 
@@ -995,6 +996,229 @@ def batch_binop(ctx, prop="C02"):
                         "broadcast shape pairs x dtype pairs; expression text, values vs Lean spec and NumPy")
 
 
+# ---------------------------------------------------------------- the API layer: constructors, CSR product
+
+def _num_close(g, e):
+    """Lean value (int / bool / Fraction / None) vs a NumPy scalar"""
+    ef = float(e)
+    if ef != ef:
+        return g is None
+    if g is None:
+        return False
+    return abs(float(g) - ef) <= 1e-9 * max(1.0, abs(ef))
+
+
+def _csr_triples(rng, nrows, ncols):
+    """CSR triples incl. empty rows, unsorted and DUPLICATE column indices (duplicates add up)"""
+    vals, cols, rows = [], [], [0]
+    for _ in range(nrows):
+        for _ in range(rng.choice([0, 0, 1, 2, 3])):
+            vals.append(rng.choice([1, 2, -3, 5, 7]))
+            cols.append(rng.randrange(ncols))
+        rows.append(len(vals))
+    dense = np.zeros((nrows, ncols), dtype=np.int64)
+    for r in range(nrows):
+        for p_ in range(rows[r], rows[r + 1]):
+            dense[r, cols[p_]] += vals[p_]
+    return (np.array(vals, dtype=np.int64), np.array(cols, dtype=np.int64), np.array(rows, dtype=np.int64), dense)
+
+
+def batch_construct(ctx, prop="C02"):
+    """`full/zeros/ones`, `eye`, `arange` and `make_csr_matrix(...) @ b`: shape, dtype, EXACT expression text
+    against the Lean model, Lean evaluation of the real index lambda vs NumPy, Lean spec vs NumPy, and no
+    out-of-bounds access (CSR: reduction bounds and a subscript read from arrays)"""
+    import pytato as pt
+    cases = []      # (kind, params, real-node thunk, model query, spec query, expected ndarray, data dict)
+
+    # ---- full / zeros / ones
+    shapes_ = [(), (0,), (3,), (2, 3), (2, 0, 2)]
+    fills = [0, 1, -3, 7, 2.5, -2.5, 0.0, -0.75, True, False, float("nan")]
+    dts = [None, "int64", "int32", "float64", "float32", "bool"]
+    for shp in shapes_:
+        for fill in fills:
+            for dt in dts:
+                if isinstance(fill, float) and fill != fill and dt not in (None, "float64", "float32"):
+                    continue        # NaN into a non-float dtype: outside the modelled scope
+                cdt = np.array(fill).dtype if dt is None else np.dtype(dt)
+                cases.append(("construct", {"fn": "full", "shape": shp, "fill": repr(fill), "dtype": str(cdt)},
+                              (lambda shp=shp, fill=fill, dt=dt: pt.full(shp, fill, dtype=dt)),
+                              f"(lower full {cdt.name} {ser.const(fill)})",
+                              f"(spec full {ser.shape(shp)} {cdt.name} {ser.const(fill)})",
+                              np.full(shp, fill, dtype=cdt), cdt, "expr"))
+        for fn, ptf, npf, lit in (("zeros", pt.zeros, np.zeros, 0), ("ones", pt.ones, np.ones, 1)):
+            for dt in ["float64", "int64", "bool", "float32"]:
+                cdt = np.dtype(dt)
+                cases.append(("construct", {"fn": fn, "shape": shp, "dtype": dt},
+                              (lambda ptf=ptf, shp=shp, dt=dt: ptf(shp, dtype=dt)),
+                              f"(lower full {dt} (int {lit}))", f"(spec full {ser.shape(shp)} {dt} (int {lit}))",
+                              npf(shp, dtype=cdt), cdt, "expr"))
+    # ---- eye: every (N, M, k) with N, M <= 3, |k| <= 4
+    for n_ in range(0, 4):
+        for m_ in [None, 0, 1, 2, 3]:
+            for k in range(-4, 5):
+                for dt in ("float64", "int64"):
+                    if dt == "int64" and (n_ + (m_ or 0) + k) % 3:
+                        continue
+                    mm = n_ if m_ is None else m_
+                    cases.append(("construct", {"fn": "eye", "N": n_, "M": m_, "k": k, "dtype": dt},
+                                  (lambda n_=n_, m_=m_, k=k, dt=dt: pt.eye(n_, m_, k, dtype=dt)),
+                                  f"(lower eye {k})", f"(spec eye {n_} {mm} {k})",
+                                  np.eye(n_, m_, k, dtype=dt), np.dtype(dt), "expr"))
+    # ---- arange: every integer (start, stop, step) in a box, all spellings; dyadic float arguments
+    for a in range(-4, 5):
+        for b in range(-4, 5):
+            for c in (1, 2, 3, -1, -2, -3):
+                q = f"arange int (int {a}) (int {b}) (int {c})"
+                cases.append(("construct", {"fn": "arange", "args": (a, b, c), "dtype": "int64"},
+                              (lambda a=a, b=b, c=c: pt.arange(a, b, c, dtype=np.int64)),
+                              f"(lower {q})", f"(spec {q})", np.arange(a, b, c, dtype=np.int64),
+                              np.dtype(np.int64), "shape-expr"))
+    for b in range(-2, 5):
+        cases.append(("construct", {"fn": "arange", "args": (b,), "dtype": "int32"},
+                      (lambda b=b: pt.arange(b, dtype=np.int32)),
+                      f"(lower arange int (int 0) (int {b}) (int 1))", f"(spec arange int (int 0) (int {b}) (int 1))",
+                      np.arange(b, dtype=np.int32), np.dtype(np.int32), "shape-expr"))
+        # (spellings NumPy accepts but pt.arange REJECTS -- `arange(1, stop=b)` TypeError, `arange(stop=b)` /
+        #  all-keyword IndexError on `args[-1]` -- raise instead of computing anything: reported, not checked here)
+        cases.append(("construct", {"fn": "arange", "args": (1, b), "dtype": "int64"},
+                      (lambda b=b: pt.arange(1, b, dtype=np.int64)),
+                      f"(lower arange int (int 1) (int {b}) (int 1))", f"(spec arange int (int 1) (int {b}) (int 1))",
+                      np.arange(1, b, dtype=np.int64), np.dtype(np.int64), "shape-expr"))
+    fl = [0.0, 0.5, -1.25, 2.0, 3.75]
+    for a in fl:
+        for b in fl:
+            for c in (0.25, 0.5, -0.75, 1.5, -2.0, 1.0):
+                q = f"arange float {ser.const(a)} {ser.const(b)} {ser.const(c)}"
+                cases.append(("construct", {"fn": "arange", "args": (a, b, c), "dtype": "float64"},
+                              (lambda a=a, b=b, c=c: pt.arange(a, b, c, dtype=np.float64)),
+                              f"(lower {q})", f"(spec {q})", np.arange(a, b, c, dtype=np.float64),
+                              np.dtype(np.float64), "shape-expr"))
+    # ---- CSR product: every (nrows, ncols, trailing shape of b) in a box x several sparsity patterns
+    rng = random.Random(ctx.seed * 311 + 17)
+    for nrows in range(0, 4):
+        for ncols in range(1, 4):
+            for extra in [(), (2,), (0,), (2, 3)]:
+                for rep in range(3):
+                    ev, ec, rs, dense = _csr_triples(rng, nrows, ncols)
+                    bdat = _data((ncols,) + extra) % 7 - 2
+                    data = {"_in0": ev, "_in1": ec, "_in2": rs, "_in3": bdat}
+
+                    def mk(nrows=nrows, ncols=ncols, ev=ev, ec=ec, rs=rs, bdat=bdat):
+                        m = pt.make_csr_matrix((nrows, ncols), _ph("ev", ev.shape), _ph("ec", ec.shape),
+                                               _ph("rs", rs.shape))
+                        from pytato.transform.lower_to_index_lambda import to_index_lambda
+                        return to_index_lambda(m @ _ph("b", bdat.shape))
+                    arrw = lambda x: f"({ser.shape(x.shape)} {ser.vals(x)})"     # noqa: E731
+                    cases.append(("csr", {"nrows": nrows, "ncols": ncols, "bshape": bdat.shape,
+                                          "ev": ev.tolist(), "ec": ec.tolist(), "rs": rs.tolist()},
+                                  mk,
+                                  f"(lower csr {nrows} {ncols} {ser.shape(ev.shape)} {ser.shape(ec.shape)} "
+                                  f"{ser.shape(rs.shape)} {ser.shape(bdat.shape)})",
+                                  f"(spec csr {nrows} {ncols} {arrw(ev)} {arrw(ec)} {arrw(rs)} {arrw(bdat)})",
+                                  np.tensordot(dense, bdat, axes=(1, 0)), np.dtype(np.int64),
+                                  ("csr", data, dense, f"(spec csrdense {nrows} {ncols} {arrw(ev)} {arrw(ec)} {arrw(rs)})")))
+    queries, owners = [], []
+    n = dis = 0
+    for kind, params, thunk, mq, sq, expected, cdt, mode in cases:
+        n += 1
+        try:
+            real = thunk()
+            expr_s = ser.sexpr(real.expr)
+        except Exception as e:   # noqa: BLE001
+            dis += 1
+            if prop == "C02":
+                ctx.violation(f"api:{kind}:exception:{type(e).__name__}",
+                              f"{params}: the API raised {type(e).__name__}: {e}", {"kind": kind, "params": params})
+            continue
+        data = mode[1] if isinstance(mode, tuple) else {}
+        want_binds = ["_in0", "_in1", "_in2", "_in3"] if kind == "csr" else []
+        if tuple(real.shape) != tuple(expected.shape) or real.dtype != cdt or sorted(real.bindings) != want_binds:
+            dis += 1
+            if prop == "C02":
+                ctx.violation(f"api:{kind}:{params.get('fn', 'csr')}:shape-dtype-bindings",
+                              f"{params}: shape {real.shape} dtype {real.dtype} bindings {sorted(real.bindings)}; "
+                              f"NumPy: shape {expected.shape} dtype {cdt}",
+                              {"kind": kind, "params": params, "expr": expr_s})
+            continue
+        bs = " ".join(ser.binding(nm, arr) for nm, arr in sorted(data.items()))
+        queries += [mq, f"(evalil {ser.shape(real.shape)} {expr_s} ({bs}))", sq]
+        owners += [("text", kind, params, expr_s, expected, mode, real),
+                   ("eval", kind, params, expr_s, expected, mode, real),
+                   ("spec", kind, params, expr_s, expected, mode, real)]
+        if isinstance(mode, tuple):
+            queries.append(mode[3])
+            owners.append(("dense", kind, params, expr_s, mode[2], mode, real))
+    # zero step: the API must refuse, and so does the model
+    for args in [(0, 5, 0), (3, 3, 0)]:
+        n += 1
+        try:
+            with np.errstate(all="ignore"):
+                pt.arange(*args, dtype=np.int64)
+            refused = False
+        except Exception:   # noqa: BLE001
+            refused = True
+        if not refused and prop == "C02":
+            dis += 1
+            ctx.violation("api:construct:arange:zero-step-accepted", f"pt.arange{args} did not raise",
+                          {"kind": "construct", "params": {"fn": "arange", "args": args}})
+        queries.append(f"(lower arange int (int {args[0]}) (int {args[1]}) (int {args[2]}))")
+        owners.append(("none", "construct", {"fn": "arange", "args": args}, "", None, "none", None))
+    ans = common.driver_query_parallel(queries)
+    for (what, kind, params, expr_s, expected, mode, real), a in zip(owners, ans):
+        fn = params.get("fn", "csr")
+        if what == "none":
+            if a != "ok none":
+                dis += 1
+                ctx.broken.append(f"correspondence:model-accepts:{kind}:{params}")
+        elif what == "text":
+            want = "ok " + (expr_s if mode == "expr" else f"{ser.shape(real.shape)} {expr_s}")
+            if a != want:
+                dis += 1
+                if prop == "C02":
+                    ctx.violation(f"api:{kind}:{fn}:expression",
+                                  f"the index lambda the array API builds for {params} is shape {tuple(real.shape)} "
+                                  f"expr {expr_s}; the model says {a[3:]}",
+                                  {"kind": kind, "params": params, "expr": expr_s, "model": a[3:]})
+        elif what == "eval":
+            parts = ser.split_top(a)
+            if parts[0] != "ok":
+                dis += 1
+                ctx.broken.append(f"lean-evalil:{kind}:{a[:60]}")
+                continue
+            if int(parts[4]) or int(parts[6]):     # affine ones, and ANY (the CSR gather through the column indices)
+                dis += 1
+                ctx.violation(f"oob:index-lambda:{kind}" if prop == "C11" else f"api:{kind}:out-of-bounds",
+                              f"{params}: {parts[6]} out-of-bounds accesses (first affine one: {parts[5]})",
+                              {"kind": kind, "params": params, "expr": expr_s})
+                continue
+            if prop != "C02":
+                continue
+            got = ser.parse_vals(parts[1])
+            exp = np.asarray(expected).reshape(-1).tolist()
+            if len(got) != len(exp) or not all(_num_close(g, e) for g, e in zip(got, exp)):
+                dis += 1
+                ctx.violation(f"api:{kind}:{fn}:value",
+                              f"{params}: the index lambda evaluates differently from NumPy",
+                              {"kind": kind, "params": params, "expr": expr_s, "observed": parts[1], "expected": exp})
+        elif prop == "C02":      # spec / dense: Lean specification vs NumPy
+            sp = ser.split_top(a)
+            exp = np.asarray(expected)
+            ok = sp[0] == "ok" and tuple(ser.parse_vals(sp[1])) == tuple(exp.shape)
+            if ok:
+                got = ser.parse_vals(sp[2])
+                ok = len(got) == exp.size and all(_num_close(g, e) for g, e in zip(got, exp.reshape(-1).tolist()))
+            if not ok:
+                dis += 1
+                ctx.broken.append(f"correspondence:spec-vs-numpy:{kind}:{what}:{params}")
+    ctx.note_batch("construct+csr", n, dis, exhaustive=True,
+                   kinds={k: sum(1 for c in cases if c[0] == k) for k in ("construct", "csr")},
+                   note="full/zeros/ones: shapes x fills x dtypes; eye: all N,M<=3, |k|<=4; arange: all integer "
+                        "(start,stop,step) in [-4,4]^2 x {+-1,+-2,+-3} + spellings + dyadic floats; CSR: all "
+                        "nrows<=3, ncols<=3, 4 trailing shapes x 3 sparsity patterns (empty rows, unsorted and "
+                        "duplicate columns); expression text + shape vs the model, values vs NumPy, spec vs NumPy")
+    return dis
+
+
 # ---------------------------------------------------------------- processing
 
 def _lower(c: LCase):
@@ -1164,8 +1388,9 @@ def run(ctx: common.Ctx):
     ctx.assumptions += [
         "NumPy (installed 2.x) is the reference for values; Lean Spec.* is tied to it on the same cases",
         "integer test data with pairwise distinct entries per operand (an index mix-up changes the value)",
-        "einsum / advanced indexing / CSR lowering rules have no hand model yet: their real index lambdas are "
-        "evaluated by the Lean evaluator and compared with NumPy (correspondence of semantics, no theorem about the rule)",
+        "every lowering rule and API constructor checked here has a hand model with a soundness theorem; the "
+        "randomised einsum / advanced-indexing / CSR batches additionally evaluate the REAL index lambdas with the "
+        "Lean evaluator against NumPy",
     ]
     from ..extract import apinames
     apinames.regenerate()     # PtGen/ApiNames.lean: what the live API functions emit (checked by api_emits_own_name)
@@ -1192,6 +1417,7 @@ def run(ctx: common.Ctx):
     pad_symbolic(ctx, prop="C02")
     einsum_descriptors(ctx)
     batch_binop(ctx, prop="C02")
+    batch_construct(ctx, prop="C02")
     # de-duplicate broken list (keep it short)
     ctx.broken = sorted(set(ctx.broken))[:50]
 
